@@ -118,6 +118,34 @@ pub proof fn lemma_jcount_bound(s: VolatileState, mj: Option<usize>, me: String,
     if i > 0 { lemma_jcount_bound(s, mj, me, src, chans, keys, i - 1); }
 }
 
+// ---- the announcement of a JOIN (C04: "announced to all members of the channel") ----
+#[verifier::opaque]
+pub open spec fn join_line(src: Seq<char>, channel: Seq<char>) -> Seq<char> { seq![':'] + src + seq![' '] + ("JOIN "@ + channel) }
+pub proof fn lemma_join_line(src: Seq<char>, channel: Seq<char>, msg: &str)
+    requires msg@ == "JOIN "@ + channel,
+    ensures disp::<&str>(src, msg) == join_line(src, channel),
+{
+    broadcast use display_text;
+    reveal(join_line);
+}
+// one pass over `set` minus the joiner, one copy each (the joiner gets its own echo on its connection)
+pub open spec fn others_get(before: Seq<(int, Seq<char>)>, after: Seq<(int, Seq<char>)>, s: VolatileState, set: Set<String>, me: String, line: Seq<char>) -> bool {
+    exists|order: Seq<String>|
+        #![trigger order.no_duplicates()]
+        order.no_duplicates()
+        && (forall|n: String| order.contains(n) <==> (set.contains(n) && n != me))
+        && after == before + order.map_values(|n: String| (s.users@[n].sender.id(), line))
+}
+// step k of the channel list: an admitted JOIN is announced to every other member of the channel as it is after the command
+pub open spec fn join_announce_step(fin: VolatileState, me: String, src: Seq<char>, chans: Seq<&str>, joined: bool, k: int,
+        before: Seq<(int, Seq<char>)>, after: Seq<(int, Seq<char>)>) -> bool {
+    if joined { others_get(before, after, fin, fin.channels@[sk(chans[k])].users@.dom(), me, join_line(src, chans[k]@)) } else { after == before }
+}
+pub open spec fn join_announced(o: VolatileState, fin: VolatileState, mj: Option<usize>, me: String, src: Seq<char>, chans: Seq<&str>, keys: Option<Vec<&str>>, n: int, logs: Seq<Seq<(int, Seq<char>)>>) -> bool {
+    &&& logs.len() == n + 1
+    &&& forall|k: int| 0 <= k < n ==> #[trigger] join_announce_step(fin, me, src, chans, jdec(o, mj, me, src, chans, keys, k), k, logs[k], logs[k + 1])
+}
+
 impl MainState {
 //@fn state/channel_cmds.rs MainState::process_join unit=join props=C07,C16,C04,C05 rules=R1,R2,R4,R5b,R6,R10
 //@attr #[verifier::loop_isolation(false)]
@@ -135,6 +163,11 @@ impl MainState {
                 old(conn_state).user_state.source@, channels@, keys_opt, channels@.len() as int),
             r is Ok ==> join_post(*old(state), *final(state), self.config.max_joins, my_nick(*old(conn_state)), // @prop C07,C16,C04
                 old(conn_state).user_state.source@, channels@, keys_opt, channels@.len() as int),
+            // every admitted JOIN is announced to all other members of that channel, one copy each; nothing else is sent
+            r is Ok ==> exists|logs: Seq<Seq<(int, Seq<char>)>>|
+                #![trigger join_announced(*old(state), *final(state), self.config.max_joins, my_nick(*old(conn_state)), old(conn_state).user_state.source@, channels@, keys_opt, channels@.len() as int, logs)]
+                join_announced(*old(state), *final(state), self.config.max_joins, my_nick(*old(conn_state)), old(conn_state).user_state.source@, channels@, keys_opt, channels@.len() as int, logs)
+                && logs[0] == old(outbox).log && logs[channels@.len() as int] == final(outbox).log, // @prop C04
             sym(*final(state)), // @prop C04,C05
             chans_wf(*final(state)), // @prop C04,C08
             no_empty_chan(*final(state)), // @prop C16
@@ -274,8 +307,12 @@ impl MainState {
         }
         let ghost fin = *state;
         let ghost jc = joined_created@;
+        let ghost mut logs: Seq<Seq<(int, Seq<char>)>> = seq![outbox.log];
+        proof { assert(outbox.log == old(outbox).log); }
 //@loop ~for \(\(join, _\), chname_str\) in joined_created\.iter\(\)\.zip\(channels\.iter\(\)\) iter=it3
                 invariant
+                    logs[0] == old(outbox).log, logs[it3.index@ as int] == outbox.log, // @prop C04
+                    join_announced(o, fin, mj, me, src, chans, keys_opt, it3.index@ as int, logs), // @prop C04
                     conn_same_but_stream(*conn_state, *old(conn_state)),
                     *state == fin, state_wf(fin),
                     join_post(o, fin, mj, me, src, chans, keys_opt, chans.len() as int),
@@ -285,6 +322,9 @@ impl MainState {
                     forall|k: int| 0 <= k < it3.seq().len() ==> it3.seq()[k] == (&jc[k], &chans[k]),
 //@after ~for \(\(join, _\), chname_str\) in joined_created\.iter\(\)\.zip\(channels\.iter\(\)\)
                 let ghost k3 = it3.index@ as int;
+                let ghost log_a = outbox.log;
+                let ghost mut ord: Seq<String> = Seq::empty();
+                let ghost mut done: Set<String> = Set::empty();
                 proof {
                     assert(*join == jc[k3].0);
                     assert(chname_str == &chans[k3]);
@@ -297,6 +337,13 @@ impl MainState {
                             assert(member(fin, n, sk(chans[k3])));
                         }
                     }
+//@before ~for nick in chanobj\.users\.keys\(\)
+                    let ghost line = join_line(src, chans[k3]@);
+                    let ghost set4 = chanobj.users@.dom();
+                    proof {
+                        assert(join_msg@ =~= "JOIN "@ + chans[k3]@); // @prop C04,C13
+                        lemma_join_line(src, chans[k3]@, str_of(join_msg@));
+                    }
 //@loop ~for nick in chanobj\.users\.keys\(\) iter=it4
                         invariant
                             conn_same_but_stream(*conn_state, *old(conn_state)),
@@ -305,7 +352,51 @@ impl MainState {
                             it4.seq().no_duplicates(),
                             it4.seq().len() == chanobj.users@.dom().len(),
                             forall|q: String| chanobj.users@.dom().contains(q) ==> exists|i: int| 0 <= i < it4.seq().len() && *#[trigger] it4.seq()[i] == q,
+                            forall|i: int| 0 <= i < it4.seq().len() ==> set4.contains(*#[trigger] it4.seq()[i]),
+                            set4 == chanobj.users@.dom(), user_nick == me,
+                            forall|c: String| done.contains(c) <==> (exists|j: int| 0 <= j < it4.index@ && *#[trigger] it4.seq()[j] == c),
+                            ord.no_duplicates(),
+                            forall|i: int| 0 <= i < ord.len() ==> done.contains(#[trigger] ord[i]) && ord[i] != me,
+                            forall|c: String| done.contains(c) && c != me ==> #[trigger] ord.contains(c),
+                            line == disp::<&str>(src, str_of(join_msg@)),
+                            outbox.log == log_a + ord.map_values(|n: String| (fin.users@[n].sender.id(), line)), // @prop C04
 //@after ~for nick in chanobj\.users\.keys\(\)
-                        proof { assert(chanobj.users@.dom().contains(*nick)); }
+                        proof { assert(chanobj.users@.dom().contains(*nick)); assert(!done.contains(*nick)); }
+//@endloop ~for nick in chanobj\.users\.keys\(\)
+                        proof {
+                            let f = |n: String| (fin.users@[n].sender.id(), line);
+                            let old_ord = ord;
+                            assert(string_of(nick@) == *nick && string_of(me@) == me);
+                            if nick@ != me@ {
+                                assert(!old_ord.contains(*nick)) by {
+                                    if old_ord.contains(*nick) { let i = choose|i: int| 0 <= i < old_ord.len() && old_ord[i] == *nick; assert(done.contains(old_ord[i])); }
+                                }
+                                assert(old_ord.push(*nick).map_values(f) =~= old_ord.map_values(f).push(f(*nick)));
+                                ord = old_ord.push(*nick);
+                                assert(ord[old_ord.len() as int] == *nick);
+                            }
+                            done = done.insert(*nick);
+                            assert forall|c: String| done.contains(c) && c != me implies #[trigger] ord.contains(c) by {
+                                if c == *nick { assert(ord[old_ord.len() as int] == c); }
+                                else { assert(old_ord.contains(c)); let i = choose|i: int| 0 <= i < old_ord.len() && old_ord[i] == c; assert(ord[i] == c); }
+                            }
+                        }
+//@afterloop ~for nick in chanobj\.users\.keys\(\)
+                    proof {
+                        assert forall|n: String| ord.contains(n) <==> (set4.contains(n) && n != me) by {
+                            if ord.contains(n) { let i = choose|i: int| 0 <= i < ord.len() && ord[i] == n; assert(done.contains(ord[i])); }
+                            if set4.contains(n) && n != me { assert(done.contains(n)); }
+                        }
+                        assert(others_get(log_a, outbox.log, fin, set4, me, line));
+                    }
+//@endloop ~for \(\(join, _\), chname_str\) in joined_created\.iter\(\)\.zip\(channels\.iter\(\)\)
+                proof {
+                    assert(join_announce_step(fin, me, src, chans, jdec(o, mj, me, src, chans, keys_opt, k3), k3, log_a, outbox.log)); // @prop C04
+                    let logs0 = logs;
+                    logs = logs0.push(outbox.log);
+                    assert forall|q: int| 0 <= q < k3 + 1 implies #[trigger] join_announce_step(fin, me, src, chans, jdec(o, mj, me, src, chans, keys_opt, q), q, logs[q], logs[q + 1]) by {
+                        if q < k3 { assert(join_announce_step(fin, me, src, chans, jdec(o, mj, me, src, chans, keys_opt, q), q, logs0[q], logs0[q + 1])); }
+                    }
+                }
 //@end
 }
